@@ -33,8 +33,9 @@
 (*     docs  |-> <<events, ...>>,      per well-formed document on stdin:   *)
 (*                                     what the library yields on it        *)
 (*     bad   |-> BOOLEAN,              a malformed tail follows the docs    *)
-(*     one   |-> events ]              what the library yields on the single*)
-(*                                     input of -n (null) / -s (the array)  *)
+(*     onull |-> events,               what the library yields on null (-n) *)
+(*     oslurp|-> events ]              ... and on the array of all documents *)
+(*                                     (-s); only the one in use matters    *)
 (***************************************************************************)
 EXTENDS Text, TLC
 
@@ -178,7 +179,7 @@ TIndentMany == <<116,111,111,32,109,97,110,121,32,105,110,100,101,110,116,97,116
 TIndentNeg == <<110,101,103,97,116,105,118,101,32,105,110,100,101,110,116,97,116,105,111,110,32,99,111,117,110,116,58,32>>   \* "negative indentation count: "
 TInvalidQuery == <<105,110,118,97,108,105,100,32,113,117,101,114,121,58,32>>                     \* "invalid query: "
 TCompileError == <<99,111,109,112,105,108,101,32,101,114,114,111,114,58,32>>                     \* "compile error: "
-TInvalidJson == <<105,110,118,97,108,105,100,32,106,115,111,110,58,32,60,115,116,100,105,110,62,10>>   \* "invalid json: <stdin>\n"
+TInvalidJson == <<105,110,118,97,108,105,100,32,106,115,111,110,58,32,60,115,116,100,105,110,62>>      \* "invalid json: <stdin>" (then ":line" or a newline: C17)
 TErrorColon == <<101,114,114,111,114,58,32>>                                                     \* "error: "
 TNulChar == <<99,97,110,110,111,116,32,111,117,116,112,117,116,32,97,32,115,116,114,105,110,103,32,99,111,110,116,97,105,110,105,110,103,32,78,85,76,32,99,104,97,114,97,99,116,101,114,58,32>>   \* "cannot output a string containing NUL character: "
 
@@ -230,9 +231,9 @@ ErrWith(c) == [k |-> "err", c |-> c]
 \* cli.createInputIter + `if opts.InputNull { iter = newNullInputIter() }`, cli/inputs.go:
 \* what successive iter.Next() calls return
 InputItems(s, o) ==
-  IF o.n THEN << [k |-> "val", ev |-> s.one] >>                                    \* nullInputIter: null once, stdin is not read
+  IF o.n THEN << [k |-> "val", ev |-> s.onull] >>                                    \* nullInputIter: null once, stdin is not read
   ELSE IF o.s THEN (IF s.bad THEN << [k |-> "err"] >>                              \* slurpInputIter: the error instead of the array
-                    ELSE << [k |-> "val", ev |-> s.one] >>)                        \* ... or one array, also for 0 documents
+                    ELSE << [k |-> "val", ev |-> s.oslurp] >>)                      \* ... or one array, also for 0 documents
   ELSE [i \in 1..Len(s.docs) |-> [k |-> "val", ev |-> s.docs[i]]]                  \* jsonInputIter: each document,
        \o (IF s.bad THEN << [k |-> "err"] >> ELSE <<>>)                            \* one error at the malformed tail, then the end
 
